@@ -94,6 +94,16 @@ def derived_items():
     return ts
 
 
+def late_additions():
+    """appended after everything else so that earlier ids do not move.
+    Collections whose ELEMENT is larger than 4096 bytes in memory (and exactly 4096): `hint::cautious`
+    computes 4096 / size_of::<T>() = 0 there and clamps the capacity to 1 - the only types on which that
+    clamp is observable."""
+    u8, u64 = P('u8'), P('u64')
+    return [seq('vec', arr(4097, u8)), seq('vec', arr(4096, u8)), seq('deque', arr(513, u64)),
+            seq('list', arr(4097, u8)), mapk('btreemap', u8, arr(5000, u8)), seq('hashset', arr(4100, u8))]
+
+
 def catalogue_types():
     rng = random.Random(CATALOGUE_SEED)
     out = []
@@ -116,7 +126,7 @@ def catalogue_types():
             continue
         seen.add(t)
         out.append(t)
-    for t in derived_items():
+    for t in derived_items() + late_additions():
         assert wf(t), t
         assert t not in seen
         seen.add(t)
